@@ -2,6 +2,7 @@ package hcv
 
 import (
 	"fmt"
+	"go/token"
 	"sort"
 	"strings"
 
@@ -88,6 +89,89 @@ func ruleC11_1(c *Ctx) {
 	}
 }
 
+// underKey renders the recognised decisions that dominate block b ("atom=T,atom=F", sorted).
+func (c *Ctx) underKey(b *ssa.BasicBlock) string {
+	var ks []string
+	for _, dc := range dominatingConds(b) {
+		for _, lf := range condLeaves(dc.cond, dc.onTrue) {
+			if a, neg, ok := c.An.AtomOf(lf.v); ok {
+				ks = append(ks, fmt.Sprintf("%s=%s", a.Key, tf(lf.val != neg)))
+			}
+		}
+	}
+	sort.Strings(ks)
+	ks = uniqStrings(ks)
+	if len(ks) == 0 {
+		return "always"
+	}
+	return strings.Join(ks, ",")
+}
+
+type condLeaf struct {
+	v   ssa.Value
+	val bool
+}
+
+// condLeaves splits a short-circuit condition known to be `want` into the leaves whose value is thereby known:
+// a phi of `a && b` that is true makes both true; `a || b` that is false makes both false.
+func condLeaves(v ssa.Value, want bool) []condLeaf {
+	if u, ok := v.(*ssa.UnOp); ok && u.Op == token.NOT {
+		return condLeaves(u.X, !want)
+	}
+	phi, ok := v.(*ssa.Phi)
+	if !ok {
+		return []condLeaf{{v, want}}
+	}
+	// `a && b`: edges are false constants except the last (b); `a || b`: true constants except the last
+	var consts []bool
+	var last ssa.Value
+	for _, e := range phi.Edges {
+		if k, ok := e.(*ssa.Const); ok {
+			if b, ok := constBool(k); ok {
+				consts = append(consts, b)
+				continue
+			}
+		}
+		if last != nil {
+			return nil
+		}
+		last = e
+	}
+	if last == nil || len(consts) == 0 {
+		return nil
+	}
+	for _, b := range consts {
+		if b != consts[0] {
+			return nil
+		}
+	}
+	if consts[0] == want {
+		return nil // the constant edges already give the wanted value: nothing known about the leaves
+	}
+	// want differs from the short-circuit constant: the phi took its last edge, and every earlier condition let it
+	out := condLeaves(last, want)
+	blk := phi.Block()
+	for i, e := range phi.Edges {
+		if _, ok := e.(*ssa.Const); !ok {
+			continue
+		}
+		pred := blk.Preds[i]
+		if iff, ok := pred.Instrs[len(pred.Instrs)-1].(*ssa.If); ok {
+			// the short-circuit edge was not taken: the condition had the opposite outcome
+			taken := pred.Succs[0] == blk
+			out = append(out, condLeaves(iff.Cond, !taken)...)
+		}
+	}
+	return out
+}
+
+func tf(b bool) string {
+	if b {
+		return "T"
+	}
+	return "F"
+}
+
 func ruleC11_2(c *Ctx) {
 	if !c.Need("C11.2", "ageSet", "currentAge", "freshness") {
 		return
@@ -120,7 +204,12 @@ func ruleC11_2(c *Ctx) {
 		if okAll {
 			c.Pass("C11.2", "freshness-age-store "+c.P.ShortName(st.Parent())+"#"+fmt.Sprint(n), desc, where)
 		} else {
-			c.Fail("C11.2", "freshness-age-fabricated fn="+c.P.ShortName(st.Parent()), desc,
+			// keyed by the role of the function and the decision that leads to the store, not by its name or position
+			in := c.A.roleOf[st.Parent()]
+			if in == "" {
+				in = c.P.ShortName(st.Parent())
+			}
+			c.Fail("C11.2", "freshness-age-fabricated in="+in+" under="+c.underKey(st.Block()), desc,
 				where+": "+why+". Witness: request `max-age=0, only-if-cached` (or SWR / stale-if-error with request max-age=0) emits `Age: 0` for an old entry", where)
 		}
 	}
@@ -414,34 +503,28 @@ func ruleC11_3(c *Ctx) {
 			c.Pass("C11.3", "status-site fn="+c.P.ShortName(fn)+" v="+v, "status constant, legacy marker and target header agree", where)
 		})
 	}
-	// REVALIDATED only after a 304
+	// REVALIDATED only after a 304: under status != 304 no site applying REVALIDATED is reachable from RoundTrip
+	// (interprocedural: the guard may sit in the caller of the function that applies the status)
+	nRev := 0
 	for fn := range c.A.Reach {
-		has := false
 		instrsOf(fn, func(in ssa.Instruction) {
 			if c.An.CallsRole(in, "statusApply") {
 				if v, _, _ := c.An.StatusOfCall(callOf(in)); v == "REVALIDATED" {
-					has = true
+					nRev++
 				}
 			}
 		})
-		if !has {
-			continue
-		}
-		pr := c.An.Prune(fn, AssumeKeys(map[string]bool{not304: false}))
-		live := false
-		pr.LiveInstrs(func(in ssa.Instruction) {
-			if c.An.CallsRole(in, "statusApply") {
-				if v, _, _ := c.An.StatusOfCall(callOf(in)); v == "REVALIDATED" {
-					live = true
-				}
-			}
-		})
-		if live {
-			c.Fail("C11.3", "revalidated-needs-304 fn="+c.P.ShortName(fn), "REVALIDATED is applied only when the origin answered 304", c.P.ShortName(fn)+": reachable under {status==304=F}")
-		} else {
-			c.Pass("C11.3", "revalidated-needs-304 fn="+c.P.ShortName(fn), "REVALIDATED is applied only when the origin answered 304", c.P.ShortName(fn))
-		}
 	}
+	if nRev == 0 {
+		return
+	}
+	c.ForbidOb("C11.3", "revalidated-needs-304", map[string]bool{not304: false}, "REVALIDATED-STATUS", func(in ssa.Instruction) bool {
+		if !c.An.CallsRole(in, "statusApply") {
+			return false
+		}
+		v, _, _ := c.An.StatusOfCall(callOf(in))
+		return v == "REVALIDATED"
+	}, true, "the origin answers 200 (or 500) to the validation and the response handed back is marked REVALIDATED")
 }
 
 func ruleC11_4(c *Ctx) {
